@@ -600,3 +600,17 @@ Definition m_sam_cell_ends (lengths : list Z) : list Z := map (fun c => c - 1) (
 Definition m_sam_drop_cell (row n : Z) : Z := row * n + (n - 2).
 Definition m_sam_tag_first (n : Z) : Z := n - 1.
 Definition m_sam_tag_empty (l : Z) : bool := l =? 1.
+
+(* ================================================================== sessions: tables derived from earlier tables
+   [subst_src q p] = the program p applied to the table that program q denotes (every reference to the source in p
+   replaced by q).  The harness expands references to earlier tables of a session this way; Proofs/C04_session.v shows
+   that in the model (and in the Spec) this is the same as running p on the table q produced — deriving a table never
+   changes the table it is derived from. *)
+Fixpoint subst_src (q p : prog) : prog :=
+  match p with
+  | PSrc => q
+  | PIdx sel p => PIdx sel (subst_src q p)
+  | PCat ps => PCat (map (subst_src q) ps)
+  | PRepl j txt p => PRepl j txt (subst_src q p)
+  | PTouch p => PTouch (subst_src q p)
+  end.
